@@ -3,7 +3,7 @@
 namespace OP2Utility
 {
 	// CellTypes returned and set by the GameMap class
-	enum class CellType
+	enum class CellType : unsigned int
 	{
 		FastPassible1 = 0,	// Rock vegetation
 		Impassible2,		// Meteor craters, cracks/crevases
